@@ -77,7 +77,11 @@ class DataSet:
                 from_pos = address_end
 
             while from_pos > 0:
+                if line[from_pos] != "(":
+                    raise ValueError("Unexpected text after data set value.")
                 value_end_pos = line.find(")", from_pos)
+                if value_end_pos == -1:
+                    raise ValueError("Data set value is missing end character ')'.")
                 values.append(DataSetValue.parse(line[from_pos + 1 : value_end_pos]))
                 from_pos = value_end_pos + 1
 
